@@ -20,6 +20,7 @@ const (
 	KUser
 	KEnv  // environment-internal point: serialised by the scheduler but never a decision
 	KWake // after a channel wake-up: serialised, never a decision
+	KPool // sync.Pool Get/Put
 )
 
 func (k Kind) String() string {
@@ -48,6 +49,8 @@ func (k Kind) String() string {
 		return "Env"
 	case KWake:
 		return "Wake"
+	case KPool:
+		return "Pool"
 	}
 	return "?"
 }
